@@ -167,6 +167,13 @@ inline History gen_code_case(const PropSpec& ps, Chooser& ch) {
     size_t cnt = h.scripts[i].steps.size() + (alive ? 1 : 2);
     for (size_t j = 0; j < cnt; j++) h.inter.push_back(i);
   }
+  // the pair itself: one after the other | the first makes progress, stays open while the second lives | first
+  // complete but not released | generated interleaving (the code of a session must not depend on a live peer's state)
+  uint32_t pa = npre, pb = npre + 1, pat = big ? 0 : ch.next() % 5;
+  size_t sa = h.scripts[pa].steps.size(), sb = h.scripts[pb].steps.size();
+  if (pat == 1 || pat == 4) { size_t part = 1 + (sa > 1 ? ch.next() % sa : 0); for (size_t j = 0; j < 1 + part; j++) h.inter.push_back(pa); for (size_t j = 0; j < sb + 2; j++) h.inter.push_back(pb); }
+  else if (pat == 2) { uint64_t x = ch.seed64(); for (size_t j = 0; j < 2 * (sa + sb + 4); j++) h.inter.push_back(splitmix(x) & 1 ? pa : pb); }
+  else if (pat == 3) { for (size_t j = 0; j < 1 + sa; j++) h.inter.push_back(pa); for (size_t j = 0; j < sb + 2; j++) h.inter.push_back(pb); }
   return h;
 }
 
@@ -195,7 +202,11 @@ inline History gen_lastnull_case(const PropSpec& ps, Chooser& ch) {
   uint32_t n = c.k + c.r;
   bool use_avail = ch.coin(1, 3);
   if (use_avail) { Step a; a.op = OP_AVAIL; for (uint32_t x : rec) if (x != n - 1) a.set.push_back(x); std::sort(a.set.begin(), a.set.end()); d.steps.push_back(a); }
-  else for (uint32_t x : rec) { if (x == n - 1) continue; Step s; s.op = OP_NEW; s.esi = x; d.steps.push_back(s); }
+  else {
+    // the claim is asked again while symbols arrive (every few submissions), not only right after configuration
+    uint32_t every = ch.pick<uint32_t>({0, 1, 2, 3, 5, 9}), cnt = 0;
+    for (uint32_t x : rec) { if (x == n - 1) continue; Step s; s.op = OP_NEW; s.esi = x; d.steps.push_back(s); if (every && ++cnt % every == 0) push_query(d, 1); }
+  }
   if (ch.coin(2, 3)) { Step f; f.op = OP_FINISH; d.steps.push_back(f); }
   h.scripts.push_back(e); h.scripts.push_back(d);
   return h;
@@ -418,10 +429,43 @@ inline History gen_deep_chain(Chooser& ch, const GenOpts& o, bool with_finish) {
 
 static const bool g_hook_set = (g_inject_hook.fn = &inject_2d, true);
 
+// two encoder sessions of one process with related parameters, the first finished (released or left alive)
+// before the second starts: whatever a session computes must not depend on what an earlier one left behind
+inline History gen_encoder_pair(Chooser& ch, const GenOpts& o) {
+  History h; GenOpts oo = o; oo.big_L = false;
+  Script a = gen_encoder_script(ch, oo);
+  Config c2 = a.cfg;
+  uint32_t what = ch.next() % 8;
+  switch (what) {
+    case 0: if (c2.codec == CODEC_LDPC) c2.seed = c2.seed % 0x7FFFFFFEu + 1; else c2.k += 1; break;
+    case 1: c2.pseed ^= 0x5555; break;
+    case 2:
+      if (c2.codec == CODEC_RSM) c2.m = (c2.m == 8) ? 4 : 8;        // same (k, r), the other field
+      else if (c2.codec == CODEC_RS8) { c2.codec = CODEC_RSM; c2.m = 8; }
+      else c2.N1 += 1;
+      break;
+    case 3: c2.r += 1 + ch.next() % 4; break;
+    case 4: if (c2.r > 1) c2.r -= 1; break;
+    case 5: if (c2.payload != PAY_IDENTITY) c2.L += 1; break;
+    case 6: break;                                                   // identical parameters
+    default: if (c2.k > 1) c2.k -= 1; break;
+  }
+  if (c2.codec == CODEC_RSM && c2.m == 4 && c2.k + c2.r > 15) {      // make the pair fit the small field instead of giving up the relation
+    Config c1 = a.cfg; c1.k = 1 + c1.k % 8; c1.r = 1 + c1.r % 7; c2.k = c1.k; c2.r = c1.r; a = gen_encoder_script_cfg(ch, oo, c1);
+  }
+  if (cfg_valid(c2) != 1) c2 = a.cfg;
+  Script b = gen_encoder_script_cfg(ch, oo, c2);
+  bool swap = ch.coin(1, 2), alive = ch.coin(1, 3);
+  h.scripts.push_back(swap ? b : a); h.scripts.push_back(swap ? a : b);
+  size_t cnt = h.scripts[0].steps.size() + (alive ? 1 : 2);
+  for (size_t j = 0; j < cnt; j++) h.inter.push_back(0);
+  return h;
+}
+
 // ---------------------------------------------------------------------------------------------
 inline History generate(const PropSpec& ps, Chooser& ch) {
   switch (ps.kind) {
-    case 1: return gen_single_encoder(ch, ps.go);
+    case 1: return (ch.next() % 6 == 5) ? gen_encoder_pair(ch, ps.go) : gen_single_encoder(ch, ps.go);
     case 2: {
       // memory properties: mostly single sessions, one case in four several interleaved sessions (shared
       // or cached state between sessions is where use-after-free and double free hide)
@@ -431,6 +475,17 @@ inline History generate(const PropSpec& ps, Chooser& ch) {
       return w >= 6 ? gen_single_encoder(ch, ps.go) : gen_single_decoder(ch, ps.go);
     }
     case 3: {
+      if (ch.next() % 10 == 9) {
+        // a decoder that has made progress stays open while a twin (same parameters, encoder or decoder) lives its whole life
+        GenOpts oo = ps.go; oo.big_L = false;
+        History h; Script a = gen_decoder_script(ch, oo);
+        Script b = ch.coin(1, 2) ? gen_encoder_script_cfg(ch, oo, a.cfg) : gen_decoder_script_cfg(ch, oo, a.cfg);
+        h.scripts.push_back(a); h.scripts.push_back(b);
+        size_t sa = a.steps.size(); size_t part = sa > 2 ? sa / 2 + ch.next() % (sa - sa / 2) : sa;
+        for (size_t j = 0; j < 1 + part; j++) h.inter.push_back(0);
+        for (size_t j = 0; j < b.steps.size() + 2; j++) h.inter.push_back(1);
+        return h;
+      }
       History h = gen_multi(ch, ps.go);
       if (ch.next() % 6 == 5) {   // a 2D-parity neighbour (another codec sharing the IT/ML decoder code)
         static const uint32_t shapes[][2] = {{4, 4}, {6, 5}, {9, 6}, {8, 6}, {12, 7}, {16, 8}, {3, 4}, {2, 3}, {10, 7}};
@@ -514,7 +569,7 @@ inline CaseResult run_core(const History& h, const PropSpec& ps, Stats* st, bool
     if (ps.nontrivial && ps.nontrivial(cx.features)) {
       st->nontrivial++;
       std::string txt = to_text(h);
-      if (st->distinct.insert(hash_text(txt)).second && st->samples.size() < 6 && (st->distinct.size() % 97 == 1)) st->samples.push_back(txt);
+      if (st->distinct.insert(hash_text(txt)).second && st->samples.size() < 6 && (st->distinct.size() % 97 == 1)) st->samples.push_back(txt.size() > 3000 ? txt.substr(0, 3000) + "\n... (" + std::to_string(txt.size()) + " characters)" : txt);
     }
   }
   return cr;
@@ -675,10 +730,11 @@ inline void enumerate_small(const PropSpec& ps, const Tier& t, int worker, int n
         swept++;
       }
     if (st_out) st_out->subspaces.push_back(std::string("symbol length sweep: ") + (t.thorough ? "every L in 1..65536" : "multiples of 512 +-1 up to 65536 and protocol sizes (1472, 8972, 9000, 12288, 65507, 65535)") + " on " + std::to_string(lc.size()) + " tiny codes with one source and one repair lost: complete");
-    // number of repair symbols (LDPC, thorough only): every r in 3..49999 with k = 1, N1 = 3, losing {s0, p0, p1}:
+    // number of repair symbols (LDPC): every r in 3..2500 (quick) / 3..49999 (thorough) with k = 1, N1 = 3, losing {s0, p0, p1}:
     // iterative decoding is stuck (every equation keeps two unknowns) and the 3x3 system is solvable
-    if (t.thorough && (ps.go.codecs & GC_LDPC) && ps.go.finish_mode != 2) {
-      for (uint32_t r = 3; r <= 49999; r++) {
+    if ((ps.go.codecs & GC_LDPC) && ps.go.finish_mode != 2) {
+      const uint32_t rmax = t.thorough ? 49999 : 2500;
+      for (uint32_t r = 3; r <= rmax; r++) {
         if ((idx++ % (uint64_t)nworkers) != (uint64_t)worker) continue;
         Config c; c.codec = CODEC_LDPC; c.k = 1; c.r = r; c.N1 = 3; c.seed = 1 + r % 5; c.L = 1; c.payload = PAY_RANDOM; c.pseed = r;
         History h; Script sc; sc.cfg = c; sc.role = ROLE_DEC; sc.cbmode = 1;
@@ -689,7 +745,7 @@ inline void enumerate_small(const PropSpec& ps, const Tier& t, int worker, int n
         if (!one(h)) return;
         swept++;
       }
-      if (st_out) st_out->subspaces.push_back("repair count sweep (LDPC): every n-k in 3..49999 with k=1, N1=3, the source and the first two repairs lost (ML needed, 3x3 system): complete");
+      if (st_out) st_out->subspaces.push_back("repair count sweep (LDPC): every n-k in 3.." + std::to_string(rmax) + " with k=1, N1=3, the source and the first two repairs lost (ML needed, 3x3 system): complete");
     }
     extra_json = "\"x_axis_sweep_cases_this_worker\":" + std::to_string(swept);
   }
